@@ -103,14 +103,28 @@ func runFrames(res *lp.Result, prop string) {
 				if cs.name == "snappy" && v == primitive.ProtocolVersion5 {
 					continue
 				}
-				for i := 0; i < per; i++ {
+				extra := 0
+				if cs.comp != nil && (kind == "Query" || kind == "RowsResult") {
+					extra = 3 // bodies that compress extremely well (long runs of one byte): ratios far beyond 100:1
+				}
+				for i := 0; i < per+extra; i++ {
 					g := &gen.G{R: rng, V: v, Big: rng.Intn(8) == 0}
 					f := g.Frame(kind)
 					if f == nil {
 						continue
 					}
+					if i >= per {
+						n := []int{9000, 40000, 140000}[i-per]
+						switch m := f.Body.Message.(type) {
+						case *message.Query:
+							m.Query = strings.Repeat(" ", n)
+						case *message.RowsResult:
+							m.Metadata = &message.RowsMetadata{ColumnCount: 1}
+							m.Data = message.RowSet{message.Row{make([]byte, n)}}
+						}
+					}
 					if cs.comp != nil {
-						f.SetCompress(rng.Intn(4) != 0)
+						f.SetCompress(rng.Intn(4) != 0 || i >= per)
 					}
 					id := fmt.Sprintf("v=%d kind=%s comp=%s seed=%d i=%d", v, kind, cs.name, *seed, i)
 					orig := f.DeepCopy()
@@ -146,6 +160,28 @@ func runFrames(res *lp.Result, prop string) {
 							Input: id + " bytes=" + hx(enc)})
 					}
 					if prop == "C03" {
+						// back to back over a source that delivers a few bytes per Read: both decoders must stop exactly at the frame's end
+						two := append(append([]byte{}, enc...), enc...)
+						for _, path := range []string{"DecodeFrame", "DecodeRawFrame"} {
+							br := bytes.NewReader(two)
+							src := &chunkedReader{r: br, n: 1 + rng.Intn(24)}
+							var e1, e2 error
+							if path == "DecodeFrame" {
+								_, e1 = cs.codec.DecodeFrame(src)
+							} else {
+								_, e1 = cs.codec.DecodeRawFrame(src)
+							}
+							used := len(two) - br.Len()
+							if path == "DecodeFrame" {
+								_, e2 = cs.codec.DecodeFrame(src)
+							} else {
+								_, e2 = cs.codec.DecodeRawFrame(src)
+							}
+							if e1 != nil || used != len(enc) || e2 != nil || br.Len() != 0 {
+								res.Add(lp.Finding{Kind: "violation", What: path + " over a source delivering a few bytes per Read does not consume exactly the frame",
+									Input: id + " bytes=" + hx(enc), Impl: fmt.Sprintf("first: err=%v consumed %d of %d; second: err=%v, %d bytes left", e1, used, len(enc), e2, br.Len())})
+							}
+						}
 						declared := int(dec.Header.BodyLength)
 						if declared != len(enc)-headerLen(v) {
 							res.Add(lp.Finding{Kind: "violation", What: fmt.Sprintf("header declares %d body bytes, %d were emitted", declared, len(enc)-headerLen(v)),
